@@ -24,7 +24,7 @@ EXPLANATION = (
 )
 ASSUMPTIONS = ["CPython ast parses /repo's source as the interpreter would",
                "Fragment subclasses and their behaviour-bearing fields are read from hdl/_ir.py and hdl/_mem.py on every run"]
-MIN_INSTANCES = {"R-03f": 2, "R-03a": 3, "R-03b": 4, "R-03c": 12, "R-03d": 12, "R-03e": 3}
+MIN_INSTANCES = {"R-03h": 5, "R-03g": 1, "R-03f": 2, "R-03a": 3, "R-03b": 4, "R-03c": 12, "R-03d": 12, "R-03e": 3}
 
 
 def r03a(model, ctx):
@@ -536,4 +536,100 @@ def r03f(model, ctx):
               "under `domain not in subfrag.domains` (and never stored over an existing entry)", f"{IR}:{fp.lineno}")
 
 
-RULES = [("R-03f", r03f), ("R-03a", r03a), ("R-03b", r03b), ("R-03c", r03c), ("R-03d", r03d), ("R-03e", r03e)]
+
+def r03g(model, ctx):
+    """late-bound ClockSignal/ResetSignal are resolved in the domains of the fragment that uses them: a transformer that keeps
+    per-fragment state on `self` (DomainLowerer.domains) and recurses through FragmentTransformer.on_fragment — which lowers the
+    subfragments BEFORE the fragment's own statements — must put the enclosing fragment's state back once a subfragment is done
+    (on every exit), or lower the statements first.  Otherwise a module's ClockSignal("sync") binds to the clock of a submodule
+    that defines its own domain of that name."""
+    R = "R-03g"
+    base = model.func(f"{XFRM}::FragmentTransformer.on_fragment")
+    order = [unparse(c.func) for c in ast.walk(base) if isinstance(c, ast.Call) and unparse(c.func) in
+             ("self.map_subfragments", "self.map_statements")]
+    calls = sorted((c.lineno, unparse(c.func)) for c in ast.walk(base) if isinstance(c, ast.Call) and unparse(c.func) in
+                   ("self.map_subfragments", "self.map_statements"))
+    need(len(calls) == 2, "FragmentTransformer.on_fragment: map_subfragments / map_statements calls not found")
+    subs_first = calls[0][1] == "self.map_subfragments"
+    n = 0
+    for cls in model.classes(XFRM):
+        fn = model.class_methods(cls).get("on_fragment")
+        if fn is None or cls.name == "FragmentTransformer":
+            continue
+        supers = [c for c in ast.walk(fn) if isinstance(c, ast.Call) and unparse(c.func) == "super().on_fragment"]
+        if not supers:
+            continue
+        stores = [st for st in ast.walk(fn) if isinstance(st, ast.Assign) and len(st.targets) == 1 and
+                  isinstance(st.targets[0], ast.Attribute) and unparse(st.targets[0].value) == "self" and
+                  any(isinstance(x, ast.Name) and x.id == "fragment" for x in ast.walk(st.value)) and
+                  st.lineno < supers[0].lineno]
+        for st in stores:
+            n += 1
+            attr = unparse(st.targets[0])
+            saved = [b.targets[0].id for b in ast.walk(fn) if isinstance(b, ast.Assign) and len(b.targets) == 1 and
+                     isinstance(b.targets[0], ast.Name) and unparse(b.value) == attr and b.lineno < st.lineno]
+            # restored in a finally block that covers the recursive call
+            restored = False
+            for t in ast.walk(fn):
+                if isinstance(t, ast.Try) and any(c in list(ast.walk(ast.Module(body=t.body, type_ignores=[]))) for c in supers):
+                    restored = restored or any(isinstance(b, ast.Assign) and unparse(b.targets[0]) == attr and
+                                               isinstance(b.value, ast.Name) and b.value.id in saved
+                                               for f_ in t.finalbody for b in ast.walk(f_))
+            ctx.check(restored or not subs_first, R, f"{cls.name}.on_fragment:{attr}",
+                      "per-fragment state is restored after the subfragments were lowered (try/finally)",
+                      f"{cls.name}.on_fragment sets {attr} from the fragment and recurses; FragmentTransformer.on_fragment lowers the "
+                      f"subfragments before this fragment's statements, so {attr} still holds the last subfragment's value when the "
+                      f"fragment's own ClockSignal/ResetSignal are resolved: save it before and restore it in a `finally`",
+                      f"{XFRM}:{fn.lineno}")
+    need(n >= 1, "no transformer with per-fragment state found (DomainLowerer.domains expected)")
+
+
+
+
+def r03h(model, ctx):
+    """every clocked netlist cell (flip-flop, memory read/write port, synchronous print/property) is built with the active edge
+    of its own clock domain: `clk_edge=<domain>.clk_edge`, with the clock taken from the same domain object; a literal edge is
+    allowed only on the constant-clock register that holds the init value of an undriven signal"""
+    R = "R-03h"
+    n = 0
+    mod = model.mod(IR)
+    tree = mod.tree
+    for call in ast.walk(tree):
+        if not isinstance(call, ast.Call):
+            continue
+        kw = {k.arg: k.value for k in call.keywords if k.arg}
+        if "clk_edge" not in kw:
+            continue
+        n += 1
+        edge = kw["clk_edge"]
+        if isinstance(edge, ast.Name):
+            # a local holding the edge: its single definition in the enclosing function
+            fn_ = mod.enclosing_def(call)
+            defs = [st.value for st in ast.walk(fn_ or tree) if isinstance(st, ast.Assign) and len(st.targets) == 1 and
+                    isinstance(st.targets[0], ast.Name) and st.targets[0].id == edge.id]
+            need(len(defs) == 1, f"clk_edge={edge.id}: the local's definition was not found ({IR}:{call.lineno})")
+            edge = defs[0]
+        cons = f"{unparse(call.func)}@clk_edge"
+        if isinstance(edge, ast.Constant):
+            ok = "clk" in kw and unparse(kw["clk"]).endswith("Net.from_const(0)")
+            ctx.check(ok, R, cons + ":literal", "a literal edge only together with a constant clock",
+                      f"`{unparse(call.func)}(... clk_edge={unparse(edge)})` uses a fixed edge for a real clock: a cell in a "
+                      f"clk_edge=\"neg\" domain would be emitted rising-edge while the simulator and the domain's flip-flops use the "
+                      f"falling edge", f"{IR}:{call.lineno}")
+        else:
+            ok = isinstance(edge, ast.Attribute) and edge.attr == "clk_edge"
+            ctx.check(ok, R, cons, "clk_edge=<domain>.clk_edge",
+                      f"`{unparse(call.func)}` must take its active edge from its clock domain (<domain>.clk_edge); found "
+                      f"`{unparse(edge)}`", f"{IR}:{call.lineno}")
+    need(n >= 5, f"only {n} clocked cell constructions with clk_edge= found in hdl/_ir.py")
+
+
+
+
+def r18e_shared(model, ctx):
+    """transformers rebuild fragments whole (shared with C18): memory ports, I/O buffers and RequirePosedge keep every field"""
+    from . import c18
+    c18.r18e(model, ctx)
+
+
+RULES = [("R-18e", r18e_shared), ("R-03h", r03h), ("R-03g", r03g), ("R-03f", r03f), ("R-03a", r03a), ("R-03b", r03b), ("R-03c", r03c), ("R-03d", r03d), ("R-03e", r03e)]
